@@ -131,8 +131,6 @@ fn run_ops(c: &OpCase) -> Verdict {
     if e.is_one() {
         ensure!(want.is_one(), "ops:is_one", "is_one() holds for an Esop denoting {}", want.short());
     }
-    let lits: usize = e.cubes().iter().map(|q| CubeM::of(q).num_lits()).sum();
-    ensure!(e.num_lits() == lits && e.num_cubes() == e.cubes().len(), "ops:counts", "num_lits/num_cubes disagree with cubes()");
     let has_op = matches!(c.e, XB::Xor(..) | XB::Not(..));
     pass(has_op && !want.is_const(), vec![format!("n:{}", n), format!("cubes:{}", std::cmp::min(e.num_cubes(), 16))])
 }
